@@ -553,6 +553,14 @@ func init() {
 					units = append(units, Unit{"VerifC12", []string{src, "event", "f", c}})
 					units = append(units, Unit{"VerifC12", []string{src, "both", "v", "0000,1111"}})
 				}
+				// the optimisation switches left unset (library defaults) in both the plain and the event-mode config
+				dfl := shapeFamily(small, leavesVarsOnly, false, "BI")
+				dfl = append(dfl, "(and (> i0 i1) b0)", "(or (= (/ 10 i0) 5) b0)", "(and (or (> i0 1) b0) b1)", "(if (and (= i0 i1) b0) (+ i0 1) i1)", "(or (and (> (+ i0 i1) 2) b0) b1 (not b2))")
+				for _, src := range dfl {
+					for _, ev := range []string{"debug", "event", "both"} {
+						units = append(units, Unit{"VerifC12", []string{src, ev, "v", "dflt"}})
+					}
+				}
 				// operand stacks of every allocation class (≤8, ≤16, larger): wide and deep arithmetic
 				for _, n := range []int{8, 9, 16, 17, 18} {
 					var vs []string
@@ -1400,6 +1408,12 @@ func init() {
 			for _, t := range []string{"(? (? (? _ _) _) _)", "(? _ (? _ (? _ _)))", "(? (? _ _) (? _ _))", "(? (? _ (? _ _)) _)", "(? _ (? (? _ _) _))",
 				"(? (! (? _ _)) _)", "(! (? (? _ _) _))", "(? (add _ (? _ _)) (! _))", "(if (? _ _) (? _ _) (? _ _))", "(mod (? _ _) (? _ _) _)"} {
 				units = append(units, Unit{"VerifC15", []string{t}})
+			}
+			// identifiers of every documented form (underscore first, dots inside, non-ASCII letters, digits inside)
+			for _, pre := range []string{"_h", "_", "a.b", "ü", "T_1x", "in_", "nota"} {
+				for _, t := range []string{"(! _)", "(? (! _) _)", "(? _ (! _))", "(! (? _ _))", "(if (! _) _ _)", "(add _ _)", "(? (in _ (1 2)) (! _))"} {
+					units = append(units, Unit{"VerifC15", []string{t, pre}})
+				}
 			}
 			// list literals of every kind: empty, one element, strings (with a space inside), on either side of overlap
 			for _, t := range []string{"(in _ ())", "(in _ (5))", "(in \"a\" (\"a\" \"b c\"))", "(in \"a\" ())", "(overlap (1 2) ())", "(overlap () ())", "(overlap () (1 2))",
